@@ -20,6 +20,7 @@ type StartParams struct {
 	Reset       string `json:"reset"`
 	Mode        string `json:"mode"`
 	PartialFile bool   `json:"partial_file"` // file backend whose file holds only vb0 although vb0..1 are assigned
+	NoActive    bool   `json:"no_active"`
 }
 
 type TypeParams struct {
@@ -65,6 +66,9 @@ func init() {
 				}
 			}
 			out = append(out, Instance{Scenario: "c15_start", Params: mustJSON(StartParams{Reset: "earliest", Mode: "infinite", PartialFile: true}), Bound: 0})
+			for _, mode := range []string{"infinite", "finite"} {
+				out = append(out, Instance{Scenario: "c15_start", Params: mustJSON(StartParams{Reset: "earliest", Mode: mode, NoActive: true}), Bound: 0, Note: "an assigned vBucket has no active copy: the sequence-number answers succeed but do not cover it"})
+			}
 			out = append(out, Instance{Scenario: "c12_duringopen", Params: mustJSON(struct{}{}), Bound: b, Shards: 4, Note: "a started session never silently covers only part of the assignment: a stream ending while Open() still waits for another vBucket is re-opened or counted"})
 			out = append(out, Instance{Scenario: "c15_reopen_fault", Params: mustJSON(struct{}{}), Bound: 0, Note: "load failures at the start-up that ends a rebalance"})
 			out = append(out, Instance{Scenario: "c15_slowfail", Params: mustJSON(struct{}{}), Bound: b, Shards: 4, Note: "the failing stream request is the last one to complete: every schedule within the bound"})
@@ -137,6 +141,17 @@ func startMain(p StartParams) {
 		vrt.Logf("FAULT checkpoint store covers only vb0 of the assigned vb0..1")
 	}
 	c := NewCluster(&o)
+	if p.NoActive {
+		// vb1 has no active copy at the moment (hard fail-over in progress): the per-node sequence-number
+		// answers do not contain it, a stream for it cannot be opened
+		nm := make([][]int, len(c.VbMap))
+		for i := range c.VbMap {
+			nm[i] = append([]int{}, c.VbMap[i]...)
+		}
+		nm[1][0] = -1
+		c.VbMap = nm
+		vrt.Logf("FAULT vb1 has no active copy: the sequence-number answers do not cover it")
+	}
 	highs := []uint64{5, 9}
 	rel := []string{"none", "below", "equal", "above"}
 	var rels []string
